@@ -80,6 +80,18 @@ func PatternFromPath(t *rapid.T, p string) string {
 		}
 	}
 	anchored := len(segs) == len(strings.Split(p, "/")) && rapid.IntRange(0, 9).Draw(t, "anchor") < 4
+	// a wildcard standing where the path has a separator: '*' and '?' must not cross it
+	if len(segs) >= 2 && rapid.IntRange(0, 11).Draw(t, "cross") == 0 {
+		i := rapid.IntRange(0, len(segs)-2).Draw(t, "crossat")
+		glue := rapid.SampledFrom([]string{"?", "*", "?*", "*?"}).Draw(t, "glue")
+		joined := segs[i] + glue + segs[i+1]
+		if rapid.Bool().Draw(t, "crosstrim") {
+			// e.g. "fo*ar" for foo/bar
+			a, b := []rune(segs[i]), []rune(segs[i+1])
+			joined = string(a[:len(a)-len(a)/2]) + glue + string(b[len(b)/2:])
+		}
+		segs = append(append(append([]string{}, segs[:i]...), joined), segs[i+2:]...)
+	}
 	var out []string
 	for i := 0; i < len(segs); i++ {
 		s := segs[i]
@@ -109,6 +121,13 @@ func PatternFromPath(t *rapid.T, p string) string {
 				i++ // the ** stands for this segment and the next one
 			}
 		}
+	}
+	for i, seg := range out {
+		// "**" is only part of the language as a whole segment
+		for seg != "**" && strings.Contains(seg, "**") {
+			seg = strings.ReplaceAll(seg, "**", "*")
+		}
+		out[i] = seg
 	}
 	pat := strings.Join(out, "/")
 	if anchored {
